@@ -90,25 +90,39 @@ LexLess(x, y, i) == IF i > Len(x) THEN FALSE
                     ELSE LexLess(x, y, i + 1)
 DecLess(x, y) == Len(x) < Len(y) \/ (Len(x) = Len(y) /\ LexLess(x, y, 1))
 
-\* v = <<neg, magnitude>> is a number of the 10-digit range of the base:
-\* -512..511, -2^29..2^29-1, -2^39..2^39-1
-InRange(base, v) ==
-  IF v[1] THEN ~DecLess(Val(base, MinNeg(base))[2], v[2])
-          ELSE ~DecLess(Val(base, MaxPos(base))[2], v[2])
+\* the bounds of the 10-digit range of a base: -512..511, -2^29..2^29-1,
+\* -2^39..2^39-1 (Extremes: they are the values of MaxPos and MinNeg)
+MaxMag(base) == CASE base = 2  -> <<5,1,1>>
+                  [] base = 8  -> <<5,3,6,8,7,0,9,1,1>>
+                  [] base = 16 -> <<5,4,9,7,5,5,8,1,3,8,8,7>>
+MinMag(base) == CASE base = 2  -> <<5,1,2>>
+                  [] base = 8  -> <<5,3,6,8,7,0,9,1,2>>
+                  [] base = 16 -> <<5,4,9,7,5,5,8,1,3,8,8,8>>
 
-\* magnitude * 10^e
+\* v = <<neg, magnitude>> is a number of the 10-digit range of the base
+InRange(base, v) == IF v[1] THEN ~DecLess(MinMag(base), v[2])
+                            ELSE ~DecLess(MaxMag(base), v[2])
+
+\* magnitude * 10^e, and the number of its digits
 Scale(mag, e) == IF mag = <<0>> THEN mag ELSE mag \o [i \in 1..e |-> 0]
-Scaled(v, e) == <<v[1], Scale(v[2], e)>>
+ScaledLen(mag, e) == IF mag = <<0>> THEN 1 ELSE Len(mag) + e
+
+\* InRange of magnitude * 10^e, the zeros written out only when the number
+\* of digits does not decide
+ScaledInRange(base, v, e) ==
+  LET bound == IF v[1] THEN MinMag(base) ELSE MaxMag(base)
+      n     == ScaledLen(v[2], e)
+  IN  n < Len(bound) \/ (n = Len(bound) /\ ~DecLess(bound, Scale(v[2], e)))
 
 (* A number of 310 or more digits is at least 10^309, beyond the largest   *)
 (* double (1.797..E308): as a double it is an infinity, as numeric text it *)
 (* is text that no number stands for.  It is outside every range like any  *)
 (* other number; DEC2x and x2DEC owe it an error value, not an exception.  *)
-BeyondDouble(mag) == Len(mag) >= 310
+BeyondDouble(mag, e) == ScaledLen(mag, e) >= 310
 
 \* x2DEC and x2y given a number read its decimal numeral as the digit
 \* string; a numeral of more than 10 digits is outside ("up to 10 characters")
-NumeralTooLong(digs, e) == Len(Scale(Strip(digs), e)) > Width
+NumeralTooLong(digs, e) == ScaledLen(Strip(digs), e) > Width
 
 (* places: 1..10 are in the quantifier.  A places beyond 2^63 - 1 >= 10^18 *)
 (* (no text is that long) can only be answered by an error value; what     *)
@@ -171,30 +185,26 @@ CanonSame == ~IsNeg(b, s) =>
   Unsigned(b, Canon(b, s)) = Unsigned(b, s)
 
 \* every value met is inside the range of its base; scaled by 10^e it
-\* grows (zero stays zero); once it has more digits than the bounds of the
-\* base it is outside, and what is outside at 10^e is outside at every
-\* larger power
+\* grows (zero stays zero) and has e more digits; once it has more digits
+\* than the bounds of the base it is outside
 EveryValueInRange == InRange(b, Val(b, s))
 ScaledOutside ==
   LET v == Val(b, s) IN
   \A e \in Exps :
+     LET sc == Scale(v[2], e) IN
      /\ e >= 1
+     /\ Len(sc) = ScaledLen(v[2], e)
+     /\ ScaledInRange(b, v, e) = InRange(b, <<v[1], sc>>)
      /\ v[2] # <<0>> =>
-          /\ DecLess(v[2], Scale(v[2], e))
-          /\ Len(Scale(v[2], e)) > Len(Val(b, MinNeg(b))[2]) => ~InRange(b, Scaled(v, e))
-          /\ ~InRange(b, Scaled(v, e)) => \A f \in Exps : f > e => ~InRange(b, Scaled(v, f))
-     /\ v[2] = <<0>> => InRange(b, Scaled(v, e))
+          /\ DecLess(v[2], sc)
+          /\ Len(sc) > Len(MinMag(b)) => ~InRange(b, <<v[1], sc>>)
+     /\ v[2] = <<0>> => InRange(b, <<v[1], sc>>)
 
 \* extremes
 Extremes ==
-  /\ s = MaxPos(b) => Val(b, s) = <<FALSE,
-        CASE b = 2 -> <<5,1,1>>
-          [] b = 8 -> <<5,3,6,8,7,0,9,1,1>>
-          [] b = 16 -> <<5,4,9,7,5,5,8,1,3,8,8,7>>>>
-  /\ s = MinNeg(b) => Val(b, s) = <<TRUE,
-        CASE b = 2 -> <<5,1,2>>
-          [] b = 8 -> <<5,3,6,8,7,0,9,1,2>>
-          [] b = 16 -> <<5,4,9,7,5,5,8,1,3,8,8,8>>>>
+  /\ s = MaxPos(b) => Val(b, s) = <<FALSE, MaxMag(b)>>
+  /\ s = MinNeg(b) => Val(b, s) = <<TRUE, MinMag(b)>>
+  /\ MinMag(b) = AddOne(MaxMag(b))
 
 \* test-vector export (an "invariant" that is always TRUE and prints)
 Export ==
@@ -209,8 +219,8 @@ Export ==
                  \* for which it is beyond the doubles, for which the canonical
                  \* digit string read as a decimal numeral, times 10^e, has more
                  \* than 10 digits, and for which 10^e is a places beyond any text
-                 out   |-> {e \in Exps : ~InRange(b, Scaled(Val(b, s), e))},
-                 inf   |-> {e \in Exps : BeyondDouble(Scale(Val(b, s)[2], e))},
+                 out   |-> {e \in Exps : ~ScaledInRange(b, Val(b, s), e)},
+                 inf   |-> {e \in Exps : BeyondDouble(Val(b, s)[2], e)},
                  long  |-> {e \in Exps : NumeralTooLong(s, e)},
                  pfar  |-> PlacesFar,
                  exps  |-> Exps]))
